@@ -1510,4 +1510,95 @@ theorem getL_exclude_all : ∀ (k : Nat) (l : Slots), getL (.node false [] []) k
     rw [getL, getL_exclude_all (k + 1) r]
     simp [lookupSub, List.replicate_succ]
 
+/-! ### unserialisable objects; groups for any key type -/
+
+/-! ### unserialisable objects in the selected part -/
+mutual
+theorem hasObjV_iff : ∀ v : Val, hasObjV v = true ↔ ∃ p s, atPath v p = some (.leaf (.obj s))
+  | .leaf a => by
+    cases a with
+    | obj s => simp only [hasObjV, true_iff]; exact ⟨[], s, by simp [atPath_nil]⟩
+    | none | bool _ | int _ | str _ =>
+      simp only [hasObjV, Bool.false_eq_true, false_iff, not_exists]
+      intro p s h
+      cases p with
+      | nil => simp [atPath_nil] at h
+      | cons k q => simp [atPath_leaf_cons] at h
+  | .dict l => by
+    rw [hasObjV, hasObjL_iff l]
+    constructor
+    · rintro ⟨j, w, hw, p, s, h⟩
+      exact ⟨j :: p, s, by simp [atPath_dict_cons, hw, h]⟩
+    · rintro ⟨p, s, h⟩
+      cases p with
+      | nil => simp [atPath_nil] at h
+      | cons j q =>
+        rw [atPath_dict_cons] at h
+        cases hw : slotGet l j with
+        | none => simp [hw] at h
+        | some w => exact ⟨j, w, hw, q, s, by simpa [hw] using h⟩
+theorem hasObjL_iff : ∀ l : Slots, hasObjL l = true ↔
+    ∃ j w, slotGet l j = some w ∧ ∃ p s, atPath w p = some (.leaf (.obj s))
+  | [] => by simp [hasObjL, slotGet_nil]
+  | none :: r => by
+    rw [hasObjL, hasObjL_iff r]
+    constructor
+    · rintro ⟨j, w, hw, h⟩; exact ⟨j + 1, w, by rwa [slotGet_cons_succ], h⟩
+    · rintro ⟨j, w, hw, h⟩
+      cases j with
+      | zero => simp [slotGet_cons_zero] at hw
+      | succ j => exact ⟨j, w, by rwa [slotGet_cons_succ] at hw, h⟩
+  | some v :: r => by
+    rw [hasObjL, Bool.or_eq_true, hasObjV_iff v, hasObjL_iff r]
+    constructor
+    · rintro (h | ⟨j, w, hw, h⟩)
+      · exact ⟨0, v, by simp [slotGet_cons_zero], h⟩
+      · exact ⟨j + 1, w, by rwa [slotGet_cons_succ], h⟩
+    · rintro ⟨j, w, hw, h⟩
+      cases j with
+      | zero =>
+        simp only [slotGet_cons_zero, Option.some.injEq] at hw
+        subst hw; exact Or.inl h
+      | succ j => exact Or.inr ⟨j, w, by rwa [slotGet_cons_succ] at hw, h⟩
+end
+
+theorem groupsAddG_map {K : Type} [DecidableEq K] (kk : K) (v : Item) (F : K → List Item) :
+    ∀ (L : List K), L.Nodup →
+    groupsAddG kk v (L.map (fun k => (k, F k))) =
+      L.map (fun k => (k, F k ++ if kk = k then [v] else [])) ++ (if kk ∈ L then [] else [(kk, [v])])
+  | [], _ => by simp [groupsAddG]
+  | k :: L, hn => by
+    rw [List.nodup_cons] at hn
+    simp only [List.map_cons, groupsAddG]
+    by_cases e : kk = k
+    · subst e
+      simp only [if_true, List.mem_cons, true_or, List.append_nil, List.cons.injEq, true_and]
+      apply List.map_congr_left
+      intro k' hk'
+      have : kk ≠ k' := fun e => hn.1 (e ▸ hk')
+      simp [this]
+    · have ih := groupsAddG_map kk v F L hn.2
+      simp only [e, if_false, List.append_nil, ih, List.mem_cons, false_or, List.cons_append]
+
+theorem groupsAddG_groupsOfG {K : Type} [DecidableEq K] (key : Item → K) (xs : List Item) (v : Item) :
+    groupsAddG (key v) v (groupsOfG key xs) = groupsOfG key (xs ++ [v]) := by
+  unfold groupsOfG
+  rw [groupsAddG_map (key v) v (fun k => xs.filter (fun v => key v = k)) _ (nodup_eraseDups _),
+    List.map_append, List.map_cons, List.map_nil, eraseDups_snoc, List.map_append]
+  congr 1
+  · apply List.map_congr_left
+    intro k _
+    simp only [List.filter_append, List.filter_cons, List.filter_nil]
+    by_cases e : key v = k <;> simp [e]
+  · simp only [List.mem_eraseDups]
+    by_cases h : key v ∈ xs.map key
+    · simp [h]
+    · have hf : xs.filter (fun w => key w = key v) = [] := by
+        rw [List.filter_eq_nil_iff]
+        intro w hw
+        simp only [decide_eq_true_eq]
+        intro e
+        exact h (List.mem_map.2 ⟨w, hw, e⟩)
+      simp [h, hf, List.filter_append]
+
 end Lena.C15
